@@ -1,3 +1,4 @@
+import numpy as np
 from scipy import optimize as sopt
 
 from ..config import LocalOptimizationConfig
@@ -57,6 +58,7 @@ class LocalDeme(AbstractDeme):
         return self._n_evals
 
     def _history_callback(self, intermediate_result) -> None:
-        ind = Individual(intermediate_result.x, problem=self._problem)
+        # scipy may hand the callback a view of its own work buffer, which it keeps updating: store a copy.
+        ind = Individual(np.copy(intermediate_result.x), problem=self._problem)
         ind.fitness = -intermediate_result.fun if self._problem.maximize else intermediate_result.fun
         self._run_history.append(ind)
